@@ -1,0 +1,5 @@
+//go:build !verif
+
+package modules
+
+func verifPoint(string, *Module) {}
